@@ -4,6 +4,7 @@
 //! are printed, not alarms); exit 1: VIOLATION line(s); exit >= 2: machinery failure, no verdict.
 mod ast;
 mod c01;
+mod c02;
 mod c03;
 mod c04;
 mod c05;
@@ -82,6 +83,7 @@ fn main() {
     let _ = replay;
     let report = match id.as_str() {
         "C01" => c01::run(&ctx),
+        "C02" => c02::run(&ctx),
         "C03" => c03::run(&ctx),
         "C04" => c04::run(&ctx),
         "C05" => c05::run(&ctx),
